@@ -95,6 +95,33 @@ func init() {
 		for _, f := range semanticFamilies {
 			c.Scenarios = append(c.Scenarios, f.scenario(c02Oracle))
 		}
+		c.Scenarios = append(c.Scenarios, freeScenario(func(text string, tags []string, a Analyzed, r *Result) {
+			r.Sample(text)
+			if hasTag(tags, "closure-capture") {
+				r.Volatile()
+			}
+			for _, be := range []string{"vm", "tree"} {
+				var o Obs
+				if be == "vm" && hasTag(tags, "closure-capture") {
+					// known finding (capturing closures on the VM): a captured variable resolves to another
+					// slot; storing that into a container can build a cyclic value whose Display never ends
+					r.Note("vm-run-skipped(closure-capture known finding)", 1)
+					continue
+				}
+				if be == "vm" {
+					o = RunVM(a, defaultOpts())
+					r.Obs(o)
+				} else {
+					o = RunTree(a, defaultOpts())
+				}
+				r.Trans(1)
+				r.Outcome(be + ":" + o.Class)
+				r.Distinct(be + "|" + o.Key())
+				if cc := crashClass(o); cc != "" {
+					r.Fail(cc, append([]string{"backend:" + be}, tags...), text, o.String())
+				}
+			}
+		}))
 		// every program of the limit family under every limit triple: crash/wedge oracle only
 		c.Scenarios = append(c.Scenarios, Scenario{Name: "resource-limit-lattice", Count: func(string) int { return c09Count() }, Run: func(tier string, idx int, r *Result) {
 			r.failFilter = func(class string) bool {
@@ -110,6 +137,30 @@ func init() {
 		for _, f := range semanticFamilies {
 			c.Scenarios = append(c.Scenarios, f.scenario(c04Oracle))
 		}
+		c.Scenarios = append(c.Scenarios, freeScenario(func(text string, tags []string, a Analyzed, r *Result) {
+			if hasTag(tags, "closure-capture") {
+				r.Note("skipped(closure-capture known finding)", 1)
+				return
+			}
+			ov := RunVM(a, defaultOpts())
+			ot := RunTree(a, defaultOpts())
+			r.Obs(ov)
+			r.Trans(2)
+			if crashClass(ov) != "" || crashClass(ot) != "" {
+				r.Note("crash-on-a-backend(C02)", 1)
+				return
+			}
+			r.Sample(text)
+			r.Outcome(ov.Class)
+			r.Distinct(ov.Key())
+			if ov.Class != ot.Class || ov.Kind != ot.Kind {
+				r.Fail(fmt.Sprintf("BACKENDS-DIFFER:outcome vm=%s%s tree=%s%s", ov.Class, kindSuffix(ov.Kind), ot.Class, kindSuffix(ot.Kind)), tags, text, fmt.Sprintf("vm: %s\ntree: %s", ov.String(), ot.String()))
+			} else if ov.Class == "uncaught" && ov.Msg != ot.Msg {
+				r.Fail("BACKENDS-DIFFER:uncaught-message", tags, text, fmt.Sprintf("vm: %s\ntree: %s", ov.String(), ot.String()))
+			} else if ov.Out != ot.Out {
+				r.Fail("BACKENDS-DIFFER:output", tags, text, fmt.Sprintf("vm: %s\ntree: %s", ov.String(), ot.String()))
+			}
+		}))
 		return c
 	})
 }
